@@ -12,7 +12,7 @@ def jobs(tier):
              defines=dict(NN=3, NE=2, NS=2, NM=2, NSPECIAL=4), timeout=600,
              require_tags={'end': 1, 'accept': 1, 'reject': 1}),
         dict(name='refs-migrations-free', harness=H, entry='main_c02',
-             defines=dict(NN=3, NE=2, NPOP=1, NIND=2, NMIG=2, FREE_REFS=1, NSPECIAL=6),
+             defines=dict(NN=3, NE=2, NPOP=1, NIND=1, NMIG=1, FREE_REFS=1, NSPECIAL=3),
              timeout=600, require_tags={'end': 1, 'accept': 1, 'reject': 1}),
     ]
     if tier == 'quick':
@@ -48,3 +48,5 @@ ASSUMPTIONS = [
     'oracle = transcription of docs/data-model.md "Valid tree sequence requirements" in harness/c02_integrity.c',
     'z3 decides each path; integer-valued doubles are encoded exactly as integers (IntD)',
 ]
+
+MANIFEST = {'text': 'Bounded exhaustive symbolic execution of the real tsk_table_collection_build_index + tsk_treeseq_init on table collections whose every checked field is a solver variable, against an independent transcription of docs/data-model.md: accept iff requirements, for all values within the size bounds.', 'note': "Trusts clang's IR, the engine's IR semantics (cross-validated by native replay of sampled paths each run), z3, and the oracle transcription in harness/c02_integrity.c. Bounded table sizes; integer-valued coordinates plus NaN/inf.", 'technique': 'symbolic execution of LLVM IR + SMT (z3), bounded'}
